@@ -3,6 +3,8 @@ package props
 import (
 	"encoding/json"
 	"fmt"
+	"reflect"
+	"strings"
 	"testing"
 	"time"
 
@@ -221,4 +223,206 @@ func TestC04Graphs(t *testing.T) {
 		cc := c
 		col.Case(fmt.Sprint(*c), back || shared, func() interface{} { return cc })
 	})
+}
+
+// ---- embedded structs whose fields are named like the outer ones ----
+
+type embInner struct {
+	Name  string
+	Count int
+	Only  string
+}
+type embFirst struct {
+	embInner
+	Name string
+	Size int
+}
+type embLast struct {
+	Name string
+	Size int
+	embInner
+}
+type embPointer struct {
+	*embInner
+	Name string
+	Size int
+}
+type EmbExportedInner struct {
+	Name  string
+	Count int
+	Only  string
+}
+type embExportedFirst struct {
+	EmbExportedInner
+	Name string
+	Size int
+}
+type embExportedLast struct {
+	Name string
+	Size int
+	EmbExportedInner
+}
+type embExportedPointer struct {
+	*EmbExportedInner
+	Name string
+	Size int
+}
+type EmbExportedFirst struct {
+	EmbExportedInner
+	Name string
+	Size int
+}
+type embExportedTwice struct {
+	EmbExportedFirst
+	Count int
+	Name  string
+}
+type embTwice struct {
+	embFirst
+	Count int
+	Name  string
+}
+type embNamed struct {
+	Inner embInner
+	Name  string
+	Size  int
+}
+
+// TestC04Embedded: "it receives that field's current value": the struct's own
+// field, whatever an embedded struct (before it, after it, behind a pointer,
+// exported or not, two levels down) calls its fields. A name that only the
+// embedded struct has is not laid down (null, or the promoted field's value);
+// it is never anything else and never a crash.
+// embeddedTypes: constructors by name.
+func embeddedTypes() map[string]func(outer, inner string, n int) interface{} {
+	return map[string]func(o, i string, n int) interface{}{
+		"embedded-first":       func(o, i string, n int) interface{} { return embFirst{embInner{i, n + 100, "only-" + i}, o, n} },
+		"embedded-last":        func(o, i string, n int) interface{} { return embLast{o, n, embInner{i, n + 100, "only-" + i}} },
+		"embedded-pointer":     func(o, i string, n int) interface{} { return embPointer{&embInner{i, n + 100, "only-" + i}, o, n} },
+		"embedded-nil-pointer": func(o, i string, n int) interface{} { return embPointer{nil, o, n} },
+		"embedded-exported": func(o, i string, n int) interface{} {
+			return embExportedFirst{EmbExportedInner{i, n + 100, "only-" + i}, o, n}
+		},
+		"embedded-exported-last": func(o, i string, n int) interface{} {
+			return embExportedLast{o, n, EmbExportedInner{i, n + 100, "only-" + i}}
+		},
+		"embedded-exported-pointer": func(o, i string, n int) interface{} {
+			return embExportedPointer{&EmbExportedInner{i, n + 100, "only-" + i}, o, n}
+		},
+		"embedded-exported-nil-pointer": func(o, i string, n int) interface{} { return embExportedPointer{nil, o, n} },
+		"embedded-exported-twice": func(o, i string, n int) interface{} {
+			return embExportedTwice{EmbExportedFirst{EmbExportedInner{i, n + 100, "only-" + i}, "middle-" + o, n}, n, o}
+		},
+		"embedded-twice": func(o, i string, n int) interface{} {
+			return embTwice{embFirst{embInner{i, n + 100, "only-" + i}, "middle-" + o, n}, n, o}
+		},
+		"named-struct-field": func(o, i string, n int) interface{} { return embNamed{embInner{i, n + 100, "only-" + i}, o, n} },
+	}
+}
+
+// EmbeddedCase is the replayable case.
+type EmbeddedCase struct {
+	Prop    string `json:"prop"`
+	Kind    string `json:"kind"` // embedded
+	Type    string `json:"type"`
+	Pointer bool   `json:"pointer"`
+	NoOpt   bool   `json:"noopt"`
+	Msg     string `json:"message,omitempty"`
+}
+
+// runEmbedded: three runs with other values on one evaluator. failed counts
+// the runs that ended in an error ("null or an error": an embedded struct is
+// a field of a kind the engine cannot represent).
+func runEmbedded(c *EmbeddedCase) (failed int, err error) {
+	mkObj, ok := embeddedTypes()[c.Type]
+	if !ok {
+		return 0, fmt.Errorf("unknown type %q", c.Type)
+	}
+	r, perr := prepared("return [Name, Size, Count, Only];", nil, c.NoOpt)
+	if perr != nil {
+		return 0, fmt.Errorf("harness: %v", perr)
+	}
+	tn := c.Type
+	for run, vals := range [][2]string{{"outer", "inner"}, {"", "x"}, {"outer2", ""}} {
+		n := 3 + run
+		obj := mkObj(vals[0], vals[1], n)
+		if c.Pointer {
+			pv := reflect.New(reflect.TypeOf(obj))
+			pv.Elem().Set(reflect.ValueOf(obj))
+			obj = pv.Interface()
+		}
+		res := r.Execute(obj)
+		if res.Panic != nil {
+			return failed, fmt.Errorf("%s: Execute panicked: %v", tn, res.Panic)
+		}
+		if res.Err != nil {
+			failed++
+			continue
+		}
+		if res.Val.K != lang.KArray || len(res.Val.A) != 4 {
+			return failed, fmt.Errorf("%s: unexpected result %s", tn, res.Val.Describe())
+		}
+		got := res.Val.A
+		if want := lang.Str(vals[0]); !lang.DeepEqual(got[0], want) {
+			return failed, fmt.Errorf("%s (run %d): the struct's own field Name is %s, the script received %s", tn, run, want.Describe(), got[0].Describe())
+		}
+		if !strings.HasSuffix(tn, "-twice") {
+			if want := lang.Int(int64(n)); !lang.DeepEqual(got[1], want) {
+				return failed, fmt.Errorf("%s (run %d): the struct's own field Size is %s, the script received %s", tn, run, want.Describe(), got[1].Describe())
+			}
+		}
+		if strings.HasSuffix(tn, "-twice") {
+			if want := lang.Int(int64(n)); !lang.DeepEqual(got[2], want) {
+				return failed, fmt.Errorf("%s (run %d): the struct's own field Count is %s, the script received %s", tn, run, want.Describe(), got[2].Describe())
+			}
+		} else if got[2].K != lang.KNull && !lang.DeepEqual(got[2], lang.Int(int64(n+100))) {
+			return failed, fmt.Errorf("%s (run %d): Count is a field of the embedded struct only (value %d): the script received %s", tn, run, n+100, got[2].Describe())
+		}
+		if got[3].K != lang.KNull && !lang.DeepEqual(got[3], lang.Str("only-"+vals[1])) {
+			return failed, fmt.Errorf("%s (run %d): Only is a field of the embedded struct only: the script received %s", tn, run, got[3].Describe())
+		}
+	}
+	return failed, nil
+}
+
+func init() {
+	replayers["C04/embedded"] = func(raw []byte) error {
+		var c EmbeddedCase
+		if err := json.Unmarshal(raw, &c); err != nil {
+			return err
+		}
+		_, err := runEmbedded(&c)
+		return err
+	}
+}
+
+func TestC04Embedded(t *testing.T) {
+	defer silenceAs("embedded")()
+	col := evid.New("C04", "embedded", "hand-written struct types with an embedded struct (declared before or after the outer fields, behind a pointer or a nil pointer, exported or not, two levels deep, or as a named field) whose fields are named like the outer ones, by value and by pointer, optimizer on and off, three runs with other values on one evaluator; oracle: a name of the outer struct gives the outer field's value; a name only the embedded struct has gives null or that field's value; a run may fail (an embedded struct is a field of a kind the engine cannot represent), it never panics and never gives another value; non-trivial = every case; distinct by type, passing mode and optimizer setting")
+	defer col.Flush()
+	var names []string
+	for n := range embeddedTypes() {
+		names = append(names, n)
+	}
+	sortStrings(names)
+	for _, tn := range names {
+		for _, byPtr := range []bool{false, true} {
+			for _, noOpt := range []bool{false, true} {
+				c := &EmbeddedCase{Prop: "C04", Kind: "embedded", Type: tn, Pointer: byPtr, NoOpt: noOpt}
+				failed, err := runEmbedded(c)
+				if err != nil {
+					c.Msg = err.Error()
+					violation(t, "C04", c, "%v", err)
+				}
+				if failed > 0 {
+					col.Class("embedded-runs-failed:" + tn)
+				} else {
+					col.Class("embedded-runs-gave-values:" + tn)
+				}
+				cc := *c
+				col.Case(fmt.Sprint(tn, byPtr, noOpt), true, func() interface{} { return cc })
+			}
+		}
+	}
+	col.Set("embedded_types_exhaustive", true)
 }
